@@ -392,13 +392,16 @@ class ThreadPoolServer(Server):
                 conn._channel.stream.sock.shutdown(socket.SHUT_RDWR)
             except Exception:
                 pass
-        # stop producer thread
-        self.polling_thread.join()
+        # stop producer thread (a server that was never started has neither poller nor workers)
+        polling_thread = getattr(self, "polling_thread", None)
+        if polling_thread is not None:
+            polling_thread.join()
         # cleanup thread pool : first fill the pool with None fds so that all threads exit
         # the blocking get on the queue of active connections. Then join the threads
-        for _ in range(len(self.workers)):
+        workers = getattr(self, "workers", ())
+        for _ in range(len(workers)):
             self._active_connection_queue.put(None)
-        for w in self.workers:
+        for w in workers:
             w.join()
         # close the connections that are still open; one whose disconnect hook raises must not keep
         # the others from being closed
